@@ -1,6 +1,7 @@
 package postprocessor
 
 import (
+	"fmt"
 	"slices"
 
 	"github.com/internetarchive/Zeno/internal/pkg/config"
@@ -14,6 +15,14 @@ import (
 // extractAssets extracts assets from the item's body and returns them.
 // It also potentially returns outlinks if the body contains URLs that are not assets.
 func extractAssets(item *models.Item) (assets, outlinks []*models.URL, err error) {
+	// A malformed body must cost at most this URL: the parsers we call (playlists, PDF, XML..) can panic on it
+	defer func() {
+		if r := recover(); r != nil {
+			assets, outlinks = nil, nil
+			err = fmt.Errorf("panic while extracting assets: %v", r)
+		}
+	}()
+
 	var (
 		contentType = item.GetURL().GetResponse().Header.Get("Content-Type")
 		logger      = log.NewFieldedLogger(&log.Fields{
